@@ -534,6 +534,7 @@ func C09(c *Ctx) {
 	c09Readers(c)
 	c.R.Rule("C09-R11", "E1", "the crew keeps nothing about a machine outside its reported state", 1)
 	c09CrewKeepsOnlyReportedState(c, "C09-R11")
+	c.shareRule("C15", "C15-R2", "C09-R12", "what a host has written out is every change: the report carries every field and a deletion clears the duplicate-suppression record (a machine re-created the same way is reported again)")
 	c.shareRule("C10", "C10-R2", "C09-R10", "a state is plain data of its own: nothing a script is given shares structure with it (a reloaded state shares nothing, so sharing would be observable)")
 	c.shareRule("C16", "C16-R3", "C09-R8", "what mcrew writes out for a machine is that machine's state: one transaction, every record, each record's bytes its own")
 	c.shareRule("C15", "C15-R8", "C09-R9", "what the stdio host writes out is everything it read plus every reported change (its store starts from the state file)")
